@@ -283,7 +283,7 @@ def render(row, i, n, variant, groups):
             return "_"
         if names == ["t%d" % i]:
             return None
-    if variant == 2 and groups:
+    if variant in (2, 3) and groups:
         g = [j for j in range(n) if "g" in groups.get(j, ())]
         if g and all(row[j] for j in g):
             return " ".join(["g"] + ["t%d" % j for j in range(n) if row[j] and j not in g])
@@ -318,7 +318,8 @@ def _compile(*a):
 
 def _compile_concrete(X, perm, mode, n):
     variant = P.get("variant", 0)
-    groups = {1: ("g",), 2: ("g", "h")} if variant == 2 else {}
+    # variant 3: a second group whose NAME contains the first one's ("g" / "gg"): group lookup is by whole name
+    groups = {1: ("g",), 2: ("g", "h")} if variant == 2 else ({1: ("g",), 2: ("gg", "h")} if variant == 3 else {})
     marks = {}
     for i in range(n):
         sp = {}
@@ -345,6 +346,8 @@ def _compile_concrete(X, perm, mode, n):
             para["marks"] = ""
         elif variant == 2 and perm[1] and perm[2]:
             para["marks"] = "g" + (" t0" if perm[0] else "")
+        elif variant == 3 and perm[1]:
+            para["marks"] = " ".join(["g"] + ["t%d" % j for j in (0, 2) if perm[j]])
         else:
             return rt.SKIP
         want = [bool(p) for p in perm]
@@ -380,7 +383,7 @@ def obligations(tier, seed):
     obs.append({"name": "setops/set_from", "fn": "ob_setops", "P": {"n": 3, "what": "set_from"}, "timeout": T})
     obs.append({"name": "setops/order", "fn": "ob_setops", "P": {"n": 3, "what": "order"}, "timeout": T})
     obs.append({"name": "allowed", "fn": "ob_allowed", "P": {"n": 3}, "timeout": T})
-    for v in (0, 1, 2):
+    for v in (0, 1, 2, 3):
         for vary in ("excludes", "marks"):
             obs.append({"name": "compile/variant=%d/%s" % (v, vary), "fn": "ob_compile",
                         "P": {"n": 3, "variant": v, "vary": vary}, "timeout": T})
